@@ -713,6 +713,101 @@ def check_padded_starts(ctx: Ctx):
         ctx.ok("R10.5", None, None, "package:padded-slice-starts", f"{n_mod} modules scanned: no unclamped `bound - padding` slice start", None, nontrivial=False)
 
 
+_C_FRESH = {"zeros", "ones", "empty", "full", "arange", "array", "ascontiguousarray", "copy", "zeros_like", "ones_like", "empty_like", "full_like"}
+
+
+def _flat_alias_of(e):
+    """x.reshape(-1) | x.reshape((-1,)) | x.ravel() | np.ravel(x) | np.reshape(x, -1)  ->  x (an expression), else None.
+    These are views of a C-contiguous x and silent COPIES of an x in any other memory layout."""
+    if not isinstance(e, ast.Call):
+        return None
+    fn = e.func
+    minus1 = lambda a: (isinstance(a, ast.UnaryOp) and isinstance(a.op, ast.USub) and isinstance(a.operand, ast.Constant) and a.operand.value == 1) or (isinstance(a, ast.Constant) and a.value == -1) or (isinstance(a, ast.Tuple) and len(a.elts) == 1 and minus1(a.elts[0]))
+    if isinstance(fn, ast.Attribute) and fn.attr == "ravel" and not e.args and isinstance(fn.value, (ast.Name, ast.Attribute)) and not (isinstance(fn.value, ast.Name) and fn.value.id in ("np", "numpy")):
+        return fn.value
+    if isinstance(fn, ast.Attribute) and fn.attr == "reshape" and len(e.args) == 1 and minus1(e.args[0]) and isinstance(fn.value, (ast.Name, ast.Attribute)) and not (isinstance(fn.value, ast.Name) and fn.value.id in ("np", "numpy")):
+        return fn.value
+    if isinstance(fn, ast.Attribute) and isinstance(fn.value, ast.Name) and fn.value.id in ("np", "numpy"):
+        if fn.attr == "ravel" and len(e.args) == 1 and isinstance(e.args[0], (ast.Name, ast.Attribute)):
+            return e.args[0]
+        if fn.attr == "reshape" and len(e.args) == 2 and minus1(e.args[1]) and isinstance(e.args[0], (ast.Name, ast.Attribute)):
+            return e.args[0]
+    return None
+
+
+def _writes_through_flat_alias(fnode) -> list:
+    """(store statement, alias name, base expression) for every store through a flattened alias of an array whose
+    layout the function does not fix, while that array is still used afterwards (or belongs to the caller)"""
+    out = []
+    params = {a.arg for a in fnode.args.posonlyargs + fnode.args.args + fnode.args.kwonlyargs}
+    aliases = {}
+    defs = {}
+    def_lines = {}
+    for st in ast.walk(fnode):
+        if isinstance(st, ast.Assign) and len(st.targets) == 1 and isinstance(st.targets[0], ast.Name):
+            defs.setdefault(st.targets[0].id, []).append(st.value)
+            def_lines.setdefault(st.targets[0].id, []).append(st.lineno)
+            b = _flat_alias_of(st.value)
+            if b is not None:
+                aliases[st.targets[0].id] = (b, st)
+    for name, (base, dst) in aliases.items():
+        if len(defs.get(name, [])) != 1:
+            continue
+        bname = base.id if isinstance(base, ast.Name) else None
+        if bname is not None and (bname not in params or (def_lines.get(bname) and max(def_lines[bname]) < dst.lineno)):
+            # a base the function created itself in C order (before taking the alias) is contiguous: the alias is a view
+            ds = defs.get(bname, [])
+            fresh = lambda v: isinstance(v, ast.Call) and isinstance(v.func, ast.Attribute) and v.func.attr in _C_FRESH and not any(k.arg == "order" for k in v.keywords) and not (v.func.attr.endswith("_like") or (v.func.attr == "copy" and isinstance(v.func.value, ast.Name) and v.func.value.id in ("np", "numpy")))
+            if ds and all(fresh(v) for v in ds):
+                continue
+        stores = []
+        for st in ast.walk(fnode):
+            tgt = None
+            if isinstance(st, ast.Assign):
+                tgt = [t for t in st.targets if isinstance(t, ast.Subscript) and isinstance(t.value, ast.Name) and t.value.id == name]
+            elif isinstance(st, ast.AugAssign):
+                t = st.target
+                tgt = [t] if (isinstance(t, ast.Name) and t.id == name) or (isinstance(t, ast.Subscript) and isinstance(t.value, ast.Name) and t.value.id == name) else []
+            elif isinstance(st, ast.Call):
+                if any(k.arg == "out" and isinstance(k.value, ast.Name) and k.value.id == name for k in st.keywords):
+                    tgt = [st]
+                elif isinstance(st.func, ast.Attribute) and isinstance(st.func.value, ast.Name) and st.func.value.id == name and st.func.attr in ("fill", "sort", "put", "itemset", "partition"):
+                    tgt = [st]
+            if tgt:
+                stores.append(st)
+        for st in stores:
+            after = getattr(st, "end_lineno", st.lineno)
+            btxt = ast.unparse(base)
+            used_later = any(isinstance(n, (ast.Name, ast.Attribute)) and isinstance(getattr(n, "ctx", None), ast.Load) and ast.unparse(n) == btxt and n.lineno > after for n in ast.walk(fnode))
+            root = base
+            while isinstance(root, ast.Attribute):
+                root = root.value
+            callers = isinstance(root, ast.Name) and root.id in params
+            if used_later or callers:
+                out.append((st, name, base))
+    return out
+
+
+def check_flat_alias_writes(ctx: Ctx):
+    """R10.6 (shape rule over the whole package, memory layouts): no store through `x.reshape(-1)` / `x.ravel()`
+    that is meant to reach x.  For a Fortran-ordered or strided x these are copies: the store is lost there,
+    so the result depends on the memory layout of the caller's arrays."""
+    prog = ctx.prog
+    probe = ast.parse("def f(a, lut):\n    flat = a.reshape(-1)\n    n = np.bincount(flat)\n    flat[...] = lut[flat]\n    return a, n\n\ndef g(a, lut):\n    flat = a.reshape(-1)\n    n = np.bincount(flat)\n    a[...] = lut[a]\n    return a, n\n\ndef h(shape):\n    b = np.zeros(shape)\n    v = b.ravel()\n    v[::2] = 1\n    return b\n")
+    got = [len(_writes_through_flat_alias(fn)) for fn in probe.body]
+    if got != [1, 0, 0]:
+        ctx.undecided("R10.6.floor", None, None, "floor:R10.6", f"the built-in examples (one store through a flattened alias, two harmless uses) give {got}: rule broken")
+        return
+    n_fn = hits = 0
+    for f in prog.package_functions():
+        n_fn += 1
+        for st, name, base in _writes_through_flat_alias(f.node):
+            hits += 1
+            ctx.violated("R10.6", f, st, f"{f.qual}:{name}<-{norm(base)[:40]}", "no store through a flattened alias (reshape(-1) / ravel) of an array whose memory layout the function does not fix: for Fortran-ordered or strided arrays the alias is a copy and the store is lost", {"store": norm(st)[:100], "alias": name, "of": norm(base)})
+    if hits == 0:
+        ctx.ok("R10.6", None, None, "package:flat-alias-stores", f"{n_fn} functions scanned: no store through a flattened alias of a caller-layout array", None, nontrivial=False)
+
+
 def _run_rule(ctx, name, fn):
     """a sub-rule that cannot be evaluated is recorded as undecided; the remaining rules still run"""
     try:
@@ -727,6 +822,7 @@ def check(ctx: Ctx):
         check_padded_starts(ctx)
     except (Undecided, AnchorMissing) as e:
         ctx.undecided("R10.5", None, None, "R10.5:check_padded_starts", f"{type(e).__name__}: {e}")
+    _run_rule(ctx, "R10.6", check_flat_alias_writes)
     for fn, rule in ((check_crop_data, "R10.1"), (check_bbox, "R10.2"), (check_crop_mask, "R10.3"), (check_pair_constructor, "R10.4")):
         try:
             fn(ctx)
